@@ -841,3 +841,7 @@ mod tests {
         Ok(())
     }
 }
+
+#[cfg(kani)]
+#[path = "/verif/kani/query.rs"]
+mod verif_kani;
